@@ -133,7 +133,7 @@ func Items(quick bool) []Item {
 	t3 := gfam.Top(gfam.Terms(3, leaves))
 	step := 1
 	if quick {
-		step = 40
+		step = 16
 	}
 	for _, f := range ts {
 		add("core2", f())
